@@ -71,6 +71,8 @@ def _pick_corpus(rnd, knobs, group=None):
     g = _corpus_groups()
     if group:
         pool = g[group]
+    elif rnd.random() < 0.12:
+        pool = g["multinum"]  # several numeric measures: whichever comes "first" matters
     elif rnd.random() < knobs["shim_bias"]:
         pool = g["shimmed"]
     else:
